@@ -3,6 +3,8 @@ import GenlmModel.Proofs.PrefixWeight
 import GenlmModel.Proofs.DerivSkip
 import GenlmModel.Proofs.Deriv
 import GenlmModel.Proofs.PrefixT
+import GenlmModel.Proofs.LimPrefix
+import GenlmModel.Proofs.LimNorm
 /-! # C03 — prefix weights -/
 namespace Genlm.Props.C03
 /-- the prefix transducer relates every string to each of its prefixes exactly once -/
@@ -26,4 +28,16 @@ alias prefix_weight_limit := Genlm.prefix_weight_limit
 /-- prefix sums count each string once and satisfy the prefix recurrence -/
 alias prefix_sum_is_sum_over_strings := Genlm.prefixWN_eq_sum_strsLe
 alias prefix_recurrence := Genlm.prefixWN_consistent
+
+/-! ## at the limit (ℝ≥0∞): genuinely infinite sums over all completions -/
+/-- the prefix grammar the code builds (`G @ prefix_transducer`, pruned construction) assigns to p the sum of the weights of
+ALL strings that begin with p, each counted once — no convergence hypothesis (a divergent sum is `∞` on both sides) -/
+alias prefix_weight_is_sum_over_all_completions := Genlm.prefixWeight_WL'
+alias prefix_weight_as_tsum_append := Genlm.prefixWeight_WL_append
+/-- for the empty prefix: the total weight of the language -/
+alias prefix_weight_empty_is_total := Genlm.prefixWeight_nil
+alias prefix_transducer_limit_weight := Genlm.TL_prefixT
+/-- derivative with the TRUE nullable factors (infinitely many ε-derivations allowed): D_a G (y) = G(a·y) -/
+alias derivative_true_limit := Genlm.derivative_WL
+alias derivative_true_limit_start := Genlm.derivative_WL_start
 end Genlm.Props.C03
